@@ -640,15 +640,30 @@ def outcomeL (m : M Val) : List Char :=
   | .ok w => cs "ok " ++ renderL w
   | .error e => cs "err " ++ renderErrL e
 
-/-- the `Ext` in which exactly the external call named by `spec` fails ("-" = none; `ctor:<qualified class>`,
-    `setattr`, `float`, `uri`, `mkset`, `exthook`) -/
-def mkExtL (spec : List Char) : Ext where
-  ctorOk := fun c _ => !(spec == cs "ctor:" ++ clsNameL c)
-  setattrOk := fun _ _ _ => spec != cs "setattr"
-  floatOk := fun _ => spec != cs "float"
-  uriOk := fun _ => spec != cs "uri"
-  setOk := fun _ => spec != cs "mkset"
-  extOk := fun _ _ => spec != cs "exthook"
+/-- `kind=detail` → (kind, some detail); no '=' → (spec, none) -/
+def splitEq : List Char → List Char × Option (List Char)
+  | [] => ([], none)
+  | c :: rest =>
+    if c = '=' then ([], some rest)
+    else match splitEq rest with
+      | (k, d) => (c :: k, d)
+
+/-- the `Ext` in which exactly the external call named by `spec` fails: "-" = none; otherwise `<kind>=<inputs>` with kind
+    `ctor:<qualified class>` (inputs: the rendered constructor arguments), `setattr` (`<key>=<value>`), `float`, `uri`, `mkset`
+    (the rendered argument), `exthook` (`<code>:<raw label>`).  The call fails iff kind AND inputs match — the external functions
+    are deterministic, so an earlier call of the same kind with other inputs (which succeeded in the real run) succeeds here
+    too.  Without `=<inputs>` every call of the kind fails. -/
+def mkExtL (spec : List Char) : Ext :=
+  let kind := (splitEq spec).1
+  let hit (d : List Char) : Bool := match (splitEq spec).2 with
+    | none => true
+    | some t => t == d
+  { ctorOk := fun c xs => !(kind == cs "ctor:" ++ clsNameL c && hit (renderItemsL true xs))
+    setattrOk := fun _ k v => !(kind == cs "setattr" && hit (renderKeyL k ++ '=' :: renderL v))
+    floatOk := fun v => !(kind == cs "float" && hit (renderL v))
+    uriOk := fun v => !(kind == cs "uri" && hit (renderL v))
+    setOk := fun v => !(kind == cs "mkset" && hit (renderL v))
+    extOk := fun code raw => !(kind == cs "exthook" && hit (Nat.toDigits 10 code.toNat ++ ':' :: raw.toList)) }
 
 /-! ### recursion budget -/
 
